@@ -90,3 +90,37 @@ def sub_rng(seed, tag):
 
 def frac_str(x):
     return f"{x.numerator}/{x.denominator}" if x.denominator != 1 else str(x.numerator)
+
+
+def _inexact(o, bits=24, maxden=1 << 22):
+    """does an observation contain a rational outside the float32-exact domain?"""
+    if isinstance(o, int):
+        return False
+    if len(o) == 2 and isinstance(o[0], int) and isinstance(o[1], int) and o[1] > 0:
+        n, d = o
+        if d & (d - 1) != 0 or d > maxden:
+            return True
+        return abs(n).bit_length() > bits
+    return any(_inexact(x) for x in o)
+
+
+def compare_ops(model_line, impl_line):
+    """Compare per-operation observation lists; stop at the first operation whose MODEL
+    observation leaves the float32-exact dyadic domain (rounding is not modelled).
+    Returns (equal_on_compared_prefix, n_compared, truncated)."""
+    if model_line == impl_line:
+        return True, None, False
+    try:
+        m, i = sx.loads(model_line), sx.loads(impl_line)
+    except Exception:
+        return False, 0, False
+    if not (isinstance(m, list) and isinstance(i, list)) or (m and isinstance(m[0], int)) or (i and isinstance(i[0], int)):
+        return False, 0, False
+    n = 0
+    for a, b in zip(m, i):
+        if _inexact(a):
+            return True, n, True
+        if a != b:
+            return False, n, False
+        n += 1
+    return len(m) == len(i), n, False
